@@ -297,11 +297,11 @@ def valid(kind, p, h):
     if kind == "Trapezoid":
         a, b, c, d = p
         return a <= b <= c <= d and a < d and math.isfinite(b) and math.isfinite(c)
-    if kind == "PiShape":
+    if kind == "PiShape":  # vertical edges (a == b, c == d) are degenerate but well defined by the piecewise definition
         a, b, c, d = p
-        return fin and a < b <= c < d
+        return fin and a <= b <= c <= d and a < d
     if kind in ("SShape", "ZShape"):
-        return fin and p[0] < p[1]
+        return fin and p[0] <= p[1]
     if kind in ("Ramp", "Arc", "SemiEllipse", "Concave"):
         return fin and p[0] != p[1]
     if kind == "Rectangle":
